@@ -84,7 +84,7 @@ func (b Beh) resp() target.Resp {
 			}
 		}}
 	case "stall":
-		return target.Resp{Status: 200, DelayMs: 500, Body: []byte("late")}
+		return target.Resp{Status: 200, DelayMs: 1200, Body: []byte("late")}
 	case "short_body":
 		return raw("HTTP/1.1 200 OK\r\nContent-Length: 50\r\n\r\nshort")
 	}
@@ -191,7 +191,7 @@ func checkHTTP(c HTTPCase, o *vf.Obs) error {
 	defer pand.Remove(out)
 	pool := map[string]any{
 		"id": "p",
-		"gun": map[string]any{"type": gunType(c.Connect), "target": tg.Addr(), "response-header-timeout": "150ms",
+		"gun": map[string]any{"type": gunType(c.Connect), "target": tg.Addr(), "response-header-timeout": "400ms",
 			"disable-keep-alives": !c.KeepAlive},
 		"ammo":    map[string]any{"type": "uri", "file": name, "passes": 1},
 		"result":  map[string]any{"type": "phout", "destination": out},
